@@ -1,6 +1,8 @@
 //! h_core: drivers and replayers for the postcard crate (C01-C11, C13, C20).
 //! Every subcommand writes ndjson events; no expected value is computed here.
+mod acc;
 mod common;
+mod fix;
 mod transport;
 mod wire;
 
@@ -37,6 +39,9 @@ fn main() {
         "wire" => wire::run(&args),
         "wire-exh16" => wire::run_exh16(&args),
         "wire-vec" => wire::run_vectors(&args),
+        "fix" => fix::run(&args),
+        "acc-edges" => acc::run_edges(&args),
+        "acc-stream" => acc::run_streams(&args),
         _ => panic!("unknown subcommand {cmd}"),
     }
 }
